@@ -40,12 +40,18 @@ func init() {
 			ws = NewRandomWriteScheduler()
 		default:
 			cfg := &PriorityWriteSchedulerConfig{MaxClosedNodesInTree: 4, MaxIdleNodesInTree: 4, ThrottleOutOfOrderWrites: false}
-			if p := strings.Split(kind, ":"); len(p) == 4 {
+			p := strings.Split(kind, ":")
+			if len(p) >= 4 {
 				cfg.MaxClosedNodesInTree, _ = strconv.Atoi(p[1])
 				cfg.MaxIdleNodesInTree, _ = strconv.Atoi(p[2])
 				cfg.ThrottleOutOfOrderWrites = p[3] == "1"
 			}
 			ws = NewPriorityWriteScheduler(cfg)
+			if len(p) == 5 {
+				// the state after many consecutive out-of-order Pops: the throttle limit has grown to this value
+				v, _ := strconv.Atoi(p[4])
+				ws.(*priorityWriteScheduler).writeThrottleLimit = int32(v)
+			}
 		}
 		sc := &serverConn{maxFrameSize: 16384}
 		var connFlow outflow
@@ -75,8 +81,14 @@ func init() {
 				}()
 				switch {
 				case op[0] == 'o':
-					ws.OpenStream(u32(op[1:]), OpenStreamOptions{})
-					get(u32(op[1:]))
+					// o<id> or o<id>.<pusher> (a pushed stream: OpenStreamOptions.PusherID)
+					oo := strings.Split(op[1:], ".")
+					opt := OpenStreamOptions{}
+					if len(oo) > 1 {
+						opt.PusherID = u32(oo[1])
+					}
+					ws.OpenStream(u32(oo[0]), opt)
+					get(u32(oo[0]))
 				case op[0] == 'c':
 					ws.CloseStream(u32(op[1:]))
 				case op[0] == 'a':
